@@ -386,7 +386,7 @@ Lemma auth_handle_ph_loop fuel : forall backfilled s p s' res,
   auth_state s -> handle_ph_loop fuel backfilled s p = Ok (s', res) -> auth_state s'.
 Proof.
   induction fuel as [|f IH]; intros backfilled s p s' res H; cbn [handle_ph_loop];
-    destruct (ph_check s p) as [status proposer prev_hash prev_vs].
+    destruct (ph_check s p) as [status proposer prev_hash prev_vs view_vs].
   all: repeat match goal with
        | |- (if ?c then _ else _) = _ -> _ => destruct c; [intros E; inversion E; subst; exact H|]
        end.
@@ -477,7 +477,9 @@ Definition replay_insert (s : kstate) (hd : hdr) (r : N) : res kstate :=
   else if existsb (fun x => let '(h', _, e) := x in
                             (h' =? hd_height hd) && existsb (fun p => bytes_eqb (hd_hash (ph_hdr p)) (hd_hash hd)) (re_phs e))
                   (st_rounds s)
-  then Panic "mainLoop: TODO: handle internal error from handling replayed block (round store refused the replayed header)"
+  then
+    let s1 := log_w (set_rounds s (rs_save_ph (st_rounds s) (fake_ph hd r))) (WPH (fake_ph hd r)) in
+    Ok (set_vot s1 (with_phs (k_vot s1) (v_phs (k_vot s1) ++ [fake_ph hd r])))
   else
     let s1 := log_w (set_replayed s (st_replayed s ++ [hd])) (WReplay hd) in
     Ok (set_vot s1 (with_phs (k_vot s1) (v_phs (k_vot s1) ++ [fake_ph hd r]))).
@@ -488,10 +490,10 @@ Lemma auth_replay_insert s hd r s1 : auth_state s -> replay_insert s hd r = Ok s
 Proof.
   intros H. unfold replay_insert.
   destruct (existsb _ (v_phs _)); [intros E; inversion E; subst; split; [exact H|repeat split]|].
-  destruct (existsb _ (st_rounds s)); [discriminate|].
-  intros E; inversion E; subst. destruct H as (Hc&[Hv1 Hv2]&Hn).
-  split; [|cbn; repeat split].
-  unfold auth_state. cbn. split; [exact Hc|]. split; [|exact Hn]. split; cbn; assumption.
+  destruct H as (Hc&[Hv1 Hv2]&Hn).
+  destruct (existsb _ (st_rounds s)); intros E; inversion E; subst;
+    (split; [|cbn; repeat split]);
+    (unfold auth_state; cbn; split; [exact Hc|]; split; [|exact Hn]; split; cbn; assumption).
 Qed.
 
 Lemma auth_handle_replay s0 hd cp s' res :
